@@ -39,22 +39,28 @@ Explain(s, t) == /\ Queries /\ pending = <<>> /\ q = NoQ /\ hist # <<>> /\ TestA
                  /\ q' = <<"explain", s, t, TRUE, ExplainEqs(forest, s, t)>>
                  /\ UNCHANGED <<rep, classList, useList, lookup, forest, pending, hist>>
 Return == q # NoQ /\ q' = NoQ /\ UNCHANGED <<rep, classList, useList, lookup, forest, pending, hist>>
-Next == \/ \E e \in CEqs(Consts) \cup FEqs(Consts) : Merge(e)
+\* (two disjuncts: TLC's simulator first picks a disjunct, so long random sequences mix both kinds of equation)
+Next == \/ \E e \in CEqs(Consts) : Merge(e)
+        \/ \E e \in FEqs(Consts) : Merge(e)
         \/ PropagateOne
         \/ \E p \in Pairs : Test(p[1], p[2]) \/ Explain(p[1], p[2])
         \/ Return
 Spec == Init /\ [][Next]_vars
 
 \* ---------------------------------------------------------------- refinement of S
+\* (beyond 4 constants the class-map formulation, which C17_CongC checks equal to the least fixpoint, keeps simulation fast)
+Small == Cardinality(Consts) <= 4
+Cl(E) == IF Small THEN Closure(Consts, E) ELSE ClosureFast(Consts, E)
+Expl(X, s, t) == IF Small THEN Explains(Consts, X, merged, s, t) ELSE ExplainsFast(Consts, X, merged, s, t)
 Quiescent == pending = <<>>
-TestCorrect == Quiescent => LET cl == Closure(Consts, merged) IN \A p \in Pairs : TestAns(St, p[1], p[2]) <=> (p \in cl)
+TestCorrect == Quiescent => LET cl == Cl(merged) IN \A p \in Pairs : TestAns(St, p[1], p[2]) <=> (p \in cl)
 ExplainCorrect == Quiescent => \A p \in Pairs : (p[1] # p[2] /\ TestAns(St, p[1], p[2])) =>
-                                  Explains(Consts, ExplainEqs(forest, p[1], p[2]), merged, p[1], p[2])
+                                  Expl(ExplainEqs(forest, p[1], p[2]), p[1], p[2])
 \* the answers given to queries (when Queries): what a caller observes between merges
-QueryCorrect == /\ q[1] = "test" => (q[4] <=> <<q[2], q[3]>> \in Closure(Consts, merged))
-                /\ q[1] = "explain" => Explains(Consts, q[5], merged, q[2], q[3])
+QueryCorrect == /\ q[1] = "test" => (q[4] <=> <<q[2], q[3]>> \in Cl(merged))
+                /\ q[1] = "explain" => Expl(q[5], q[2], q[3])
 \* soundness holds even in the middle of propagation; completeness only when quiescent
-AlwaysSound == ~Quiescent => LET cl == Closure(Consts, merged) IN \A p \in Pairs : TestAns(St, p[1], p[2]) => p \in cl
+AlwaysSound == ~Quiescent => LET cl == Cl(merged) IN \A p \in Pairs : TestAns(St, p[1], p[2]) => p \in cl
 \* ---------------------------------------------------------------- structure of the record (as the code relies on it)
 RepIdempotent == \A c \in Consts : rep[rep[c]] = rep[c]
 ClassListsMatch == \A r \in Consts : { classList[r][i] : i \in 1..Len(classList[r]) } = { c \in Consts : rep[c] = r }
